@@ -8,7 +8,12 @@
   * `PyDistinct`, `PyDistinct.nodup`      pairwise not Python-equal ⇒ pairwise different;
   * `dedupBy_pyEq_length_eq_imp_nodup`    `len(unique) == len` ⇒ `Nodup`;
   * `validateKeyAttr_ok_iff`              validation succeeds ⇔ `PyDistinct` and no missing cell;
-  * `validateKeyAttr_pyEq_rejected`       two positions holding Python-equal cells ⇒ AssertionError.
+  * `validateKeyAttr_pyEq_rejected`       two positions holding Python-equal cells ⇒ AssertionError;
+  * `Cell.pyEq_trans`, `Cell.pyEq_congr_right`   Python equality is an equivalence;
+  * `Dict.getPy?_congr`, `Dict.getPy?_setPy`, `getPy?_foldl_setPy_of_mem / _of_not_mem / _some / _isSome`
+                                          cell-keyed Python dicts (`table_dict[k]`, `table_dict[k] = v`): lookup and
+                                          assignment identify keys by Python equality (`d[1.0]` is `d[1]`);
+  * `PyMem`, `PyMem.of_mem`, `PyDistinct.unique`   "some cell of the column is Python-equal to the probe".
 -/
 import SSJ.Model.Frame
 import Mathlib.Data.List.Basic
@@ -192,6 +197,161 @@ theorem validateKeyAttr_pyEq_rejected (k : String) (f : Frame) (i j : Nat) (hij 
     Option.getD_some]
   simpa [Frame.col] using h
 
+/-! ### Cell-keyed Python dicts: lookup / assignment under Python equality (`Dict.getPy?`, `Dict.setPy`) -/
+
+/-- Python `==` is transitive on cells -/
+theorem Cell.pyEq_trans {a b c : Cell} (hab : a.pyEq b = true) (hbc : b.pyEq c = true) : a.pyEq c = true := by
+  rw [Cell.pyEq_eq] at hab hbc ⊢
+  cases ha : a.numVal? <;> cases hb : b.numVal? <;> cases hc : c.numVal? <;>
+    simp only [ha, hb, hc, beq_iff_eq] at hab hbc ⊢ <;>
+    first | exact hab.trans hbc | exact Bool.noConfusion hbc | exact Bool.noConfusion hab
+
+/-- Python-equal probes are interchangeable: `k₀ == k` decides `k₀ == k'` whenever `k == k'` -/
+theorem Cell.pyEq_congr_right {k k' : Cell} (h : k.pyEq k' = true) (k₀ : Cell) : k₀.pyEq k = k₀.pyEq k' := by
+  cases h1 : k₀.pyEq k' with
+  | true => exact Cell.pyEq_trans h1 (by rw [Cell.pyEq_comm]; exact h)
+  | false =>
+    cases h2 : k₀.pyEq k with
+    | false => rfl
+    | true => rw [Cell.pyEq_trans h2 h] at h1; cases h1
+
+namespace Dict
+variable {ν : Type}
+
+/-- the lookup sees the probe only up to Python equality: `d[1.0]` is `d[1]` -/
+theorem getPy?_congr (d : List (Cell × ν)) {k k' : Cell} (h : k.pyEq k' = true) : getPy? d k = getPy? d k' := by
+  induction d with
+  | nil => rfl
+  | cons p m ih =>
+    obtain ⟨k₀, v₀⟩ := p
+    simp only [getPy?, ih, Cell.pyEq_congr_right h k₀]
+
+theorem getPy?_setPy (d : List (Cell × ν)) (k k' : Cell) (v : ν) :
+    getPy? (setPy d k v) k' = if k.pyEq k' then some v else getPy? d k' := by
+  induction d with
+  | nil => simp only [setPy, getPy?]
+  | cons p m ih =>
+    obtain ⟨k₀, v₀⟩ := p
+    simp only [setPy]
+    cases h0 : k₀.pyEq k with
+    | true =>
+      simp only [if_true, getPy?]
+      have : k₀.pyEq k' = k.pyEq k' := by
+        rw [Cell.pyEq_comm k₀, Cell.pyEq_comm k, Cell.pyEq_congr_right h0]
+      rw [this]
+      split <;> rfl
+    | false =>
+      simp only [Bool.false_eq_true, if_false, getPy?, ih]
+      cases h1 : k₀.pyEq k' with
+      | false => simp only [Bool.false_eq_true, if_false]
+      | true =>
+        simp only [if_true]
+        cases h2 : k.pyEq k' with
+        | false => simp only [Bool.false_eq_true, if_false]
+        | true =>
+          rw [Cell.pyEq_trans h1 (by rw [Cell.pyEq_comm]; exact h2)] at h0
+          cases h0
+
+end Dict
+
+section FoldSetPy
+variable {α ν : Type}
+
+/-- building a dict by successive assignment: a probe Python-equal to no assigned key keeps its old value -/
+theorem getPy?_foldl_setPy_of_not_mem (key : α → Cell) (val : α → ν) (l : List α) (d : List (Cell × ν)) (k : Cell)
+    (h : ∀ a ∈ l, (key a).pyEq k = false) :
+    Dict.getPy? (l.foldl (fun d a => Dict.setPy d (key a) (val a)) d) k = Dict.getPy? d k := by
+  induction l generalizing d with
+  | nil => rfl
+  | cons a l ih =>
+    rw [List.foldl_cons, ih _ (fun b hb => h b (List.mem_cons_of_mem _ hb)), Dict.getPy?_setPy,
+      h a List.mem_cons_self]
+    rfl
+
+/-- with pairwise Python-different keys, a probe Python-equal to an assigned key finds that key's own value -/
+theorem getPy?_foldl_setPy_of_mem (key : α → Cell) (val : α → ν) (l : List α) (d : List (Cell × ν))
+    (hnd : PyDistinct (l.map key)) (a : α) (ha : a ∈ l) (k : Cell) (hk : (key a).pyEq k = true) :
+    Dict.getPy? (l.foldl (fun d a => Dict.setPy d (key a) (val a)) d) k = some (val a) := by
+  induction l generalizing d with
+  | nil => cases ha
+  | cons b l ih =>
+    unfold PyDistinct at hnd
+    rw [List.map_cons, List.pairwise_cons] at hnd
+    rw [List.foldl_cons]
+    rcases List.mem_cons.1 ha with rfl | ha'
+    · rw [getPy?_foldl_setPy_of_not_mem key val l _ k, Dict.getPy?_setPy, hk]
+      · rfl
+      · intro c hc
+        rw [Cell.pyEq_congr_right (k := k) (k' := key a) (by rw [Cell.pyEq_comm]; exact hk) (key c), Cell.pyEq_comm]
+        exact hnd.1 _ (List.mem_map_of_mem hc)
+    · exact ih _ hnd.2 ha'
+
+/-- whatever a lookup returns was assigned under a Python-equal key, or was there before -/
+theorem getPy?_foldl_setPy_some (key : α → Cell) (val : α → ν) (l : List α) (d : List (Cell × ν)) (k : Cell) (v : ν)
+    (h : Dict.getPy? (l.foldl (fun d a => Dict.setPy d (key a) (val a)) d) k = some v) :
+    (∃ a ∈ l, (key a).pyEq k = true ∧ val a = v) ∨ Dict.getPy? d k = some v := by
+  induction l generalizing d with
+  | nil => exact Or.inr h
+  | cons b l ih =>
+    rw [List.foldl_cons] at h
+    rcases ih _ h with ⟨a, ha, hk, hv⟩ | h'
+    · exact Or.inl ⟨a, List.mem_cons_of_mem _ ha, hk, hv⟩
+    · rw [Dict.getPy?_setPy] at h'
+      cases hb : (key b).pyEq k with
+      | true =>
+        rw [hb, if_pos rfl] at h'
+        exact Or.inl ⟨b, List.mem_cons_self, hb, Option.some.inj h'⟩
+      | false =>
+        rw [hb] at h'
+        exact Or.inr h'
+
+/-- a probe Python-equal to an assigned key (or already present) is found -/
+theorem getPy?_foldl_setPy_isSome (key : α → Cell) (val : α → ν) (l : List α) (d : List (Cell × ν)) (k : Cell)
+    (h : (Dict.getPy? d k).isSome ∨ ∃ a ∈ l, (key a).pyEq k = true) :
+    (Dict.getPy? (l.foldl (fun d a => Dict.setPy d (key a) (val a)) d) k).isSome := by
+  induction l generalizing d with
+  | nil =>
+    rcases h with h | ⟨a, ha, _⟩
+    · exact h
+    · cases ha
+  | cons x xs ih =>
+    rw [List.foldl_cons]
+    apply ih
+    rcases h with h | ⟨a, ha, hk⟩
+    · left
+      rw [Dict.getPy?_setPy]
+      split
+      · rfl
+      · exact h
+    · rcases List.mem_cons.mp ha with rfl | ha'
+      · left; rw [Dict.getPy?_setPy, hk]; rfl
+      · exact Or.inr ⟨a, ha', hk⟩
+
+end FoldSetPy
+
+/-- the probe `k` is Python-equal to a cell of the column: `1.0` (or `True`) "occurs" in `[1, 2, 3]` -/
+def PyMem (k : Cell) (col : List Cell) : Prop := ∃ k' ∈ col, k'.pyEq k = true
+
+instance (k : Cell) (col : List Cell) : Decidable (PyMem k col) := by unfold PyMem; infer_instance
+
+/-- a cell that occurs in the column occurs there up to Python equality -/
+theorem PyMem.of_mem {k : Cell} {col : List Cell} (h : k ∈ col) : PyMem k col := ⟨k, h, Cell.pyEq_refl k⟩
+
+/-- in a `PyDistinct` column the cell Python-equal to a probe is unique -/
+theorem PyDistinct.unique {col : List Cell} (hd : PyDistinct col) {k k₁ k₂ : Cell} (h₁ : k₁ ∈ col) (h₂ : k₂ ∈ col)
+    (e₁ : k₁.pyEq k = true) (e₂ : k₂.pyEq k = true) : k₁ = k₂ := by
+  have e : k₁.pyEq k₂ = true := Cell.pyEq_trans e₁ (by rw [Cell.pyEq_comm]; exact e₂)
+  unfold PyDistinct at hd
+  induction col with
+  | nil => cases h₁
+  | cons c cs ih =>
+    rw [List.pairwise_cons] at hd
+    rcases List.mem_cons.1 h₁ with rfl | h₁' <;> rcases List.mem_cons.1 h₂ with rfl | h₂'
+    · rfl
+    · have := hd.1 _ h₂'; rw [e] at this; cases this
+    · have := hd.1 _ h₁'; rw [Cell.pyEq_comm, e] at this; cases this
+    · exact ih hd.2 h₁' h₂'
+
 namespace AxiomCheck
 #print axioms Profiler.dedupBy_length_eq_iff
 #print axioms Cell.pyEq_refl
@@ -200,6 +360,11 @@ namespace AxiomCheck
 #print axioms dedupBy_pyEq_length_eq_imp_nodup
 #print axioms validateKeyAttr_ok_iff
 #print axioms validateKeyAttr_pyEq_rejected
+#print axioms Cell.pyEq_trans
+#print axioms Dict.getPy?_setPy
+#print axioms getPy?_foldl_setPy_of_mem
+#print axioms getPy?_foldl_setPy_some
+#print axioms PyDistinct.unique
 end AxiomCheck
 
 end SSJ
